@@ -117,3 +117,35 @@ func Max(a, b int) int {
 	}
 	return b
 }
+
+// RootWindow builds a sentinel-filled root and the window W = root.Slice(a,b)
+// (+ partial appended samples) in one of several construction orders, so that
+// header-local state (anything a header might cache about "its" storage) is
+// exercised in stale as well as fresh condition:
+//
+//	fix 0: the root is filled through its own header, then the window is sliced
+//	fix 1: the window is sliced from the freshly allocated root first, then the
+//	       root is filled through the root header (the window header has never
+//	       been written through)
+//	fix 2: the root is filled through an alias root.Slice(0,K); the root header
+//	       itself is never written through; the window is sliced from it afterwards
+func RootWindow[T signal.SignalTypes](C, K, a, b, partial, fix int) (root, w *signal.Buffer[T]) {
+	root = signal.Alloc[T](signal.Allocator{Channels: C, Length: K, Capacity: K})
+	fillVia := root
+	switch fix {
+	case 1:
+		w = root.Slice(a, b)
+	case 2:
+		fillVia = root.Slice(0, K)
+	}
+	for p := 0; p < C*K; p++ {
+		fillVia.SetSample(p, T(Sentinel(p)))
+	}
+	if w == nil {
+		w = root.Slice(a, b)
+	}
+	for k := 0; k < partial; k++ {
+		w.AppendSample(T(PartialVal(k)))
+	}
+	return root, w
+}
